@@ -16,6 +16,15 @@ UNITS = {
     'FormatVersion_canWrite': m(r'\bbool\s+canWrite\s*\('),
     'FormatVersion_canRead': m(r'\bbool\s+canRead\s*\('),
 }
+def fv_replay(expr):
+    return dict(tu='include/nix/Version.hpp', witness_harness='wit_fv2.c', witness_define_fn=True,
+                globals=['g_fa0', 'g_fa1', 'g_fa2', 'g_fb0', 'g_fb1', 'g_fb2'], kinds={g: 'int' for g in ['g_fa0', 'g_fa1', 'g_fa2', 'g_fb0', 'g_fb1', 'g_fb2']},
+                driver='nix::FormatVersion a({{{g_fa0}, {g_fa1}, {g_fa2}}}), b({{{g_fb0}, {g_fb1}, {g_fb2}}});\nbool r = ' + expr + ';\nstd::printf("OBS val %d\\n", r ? 1 : 0);',
+                oracle_body='return {val};',
+                oracle_harness='g_fa0 = {g_fa0}; g_fa1 = {g_fa1}; g_fa2 = {g_fa2}; g_fb0 = {g_fb0}; g_fb1 = {g_fb1}; g_fb2 = {g_fb2}; FormatVersion *a, *b; FV_FN(a, b);')
+for fn_, ex_ in [('FormatVersion_eq', 'a == b'), ('FormatVersion_lt', 'a < b'), ('FormatVersion_ne', 'a != b'), ('FormatVersion_gt', 'a > b'), ('FormatVersion_le', 'a <= b'),
+                 ('FormatVersion_ge', 'a >= b'), ('FormatVersion_canWrite', 'a.canWrite(b)'), ('FormatVersion_canRead', 'a.canRead(b)')]:
+    UNITS[fn_]['replay'] = fv_replay(ex_)
 def job(fn, replace=(), **kw):
     d = dict(name=fn, bodies=[fn], enforce=[fn], replace=list(replace), expect_kinds=['postcondition'], timeout=300); d.update(kw); return d
 JOBS = [
